@@ -1,4 +1,4 @@
 SPECIFICATION Spec
-CONSTANTS N = 3 FailAt = 3 MaxConns = 2 CleanupOnFailedStart = TRUE
+CONSTANTS N = 3 FailAt = 3 MaxConns = 2 CleanupOnFailedStart = TRUE MaxErrs = 0 RetryTransient = FALSE
 INVARIANTS TypeOK AllTracked StopClosesAll FailedStartLeavesNothing
 CHECK_DEADLOCK FALSE
